@@ -67,6 +67,7 @@ Lemma c07_recreate_refuted_lemma :
 Proof. vm_compute. auto. Qed.
 
 Lemma c07_kind_swap_refuted_lemma :
+  dsafe 0 wd_kind_swap = false /\
   dspec_out 0 wd_kind_swap 7 = ODir /\ dimpl_out 0 wd_kind_swap 7 = OFile 1.
 Proof. vm_compute. auto. Qed.
 
@@ -74,7 +75,8 @@ Proof. vm_compute. auto. Qed.
 Definition hd_demo : list op :=
   [Mkdir [4]; SyncDir []; O_RWC 1 [4; 1]; WriteAt 1 0 [65; 66; 67] false; SyncAll 1;
    WriteAt 1 1 [88] false; SyncDir [4]; O_RWC 2 [4; 2]; WriteAt 2 0 [70] true; Crash [];
-   Slurp [4; 1]; Exists [4; 2]; O_RW1 [4; 1]; WriteAt 1 3 [89] true; Unlink [4; 1]; Crash []; Slurp [4; 1]].
+   Slurp [4; 1]; Exists [4; 2]; O_RW1 [4; 1]; WriteAt 1 3 [89] true; Unlink [4; 1]; Mkdir [6]; Rmdir [6];
+   Mkdir [6]; SyncDir [6]; Crash []; Slurp [4; 1]; Stat [6]].
 
 (* a torn write: block size 2, the pending 3-byte write keeps its first block, the
    pending truncation is dropped *)
